@@ -326,6 +326,10 @@ fn render_item(f: &Filter, limit: usize) -> Vec<Vec<u8>> {
     out
 }
 
+pub fn items_pub(tier: Tier) -> Vec<Filter> {
+    items(tier)
+}
+
 fn items(tier: Tier) -> Vec<Filter> {
     let attrs: Vec<Vec<u8>> = ["a", "cn", "dn", "a;x-1", "2.5.4.3", "0.9", "dnQualifier", "a;b;c"].iter().map(|s| s.as_bytes().to_vec()).collect();
     let rules: Vec<Vec<u8>> = ["caseExactMatch", "dnSubtreeMatch", "2.5.13.5", "dnx", "d"].iter().map(|s| s.as_bytes().to_vec()).collect();
